@@ -58,7 +58,8 @@ fn gen_out_value(rng: &mut Rng) -> TV {
         0 => TV::Lambda(rng.pick(tv::LAMBDAS).to_string()),
         1 => TV::BuiltIn(rng.pick(tv::BUILTINS).to_string()),
         _ => {
-            let v = gen_value(rng, rng.below(4), true);
+            let d = rng.below(4);
+            let v = gen_value(rng, d, true);
             // the program travels as a command-line argument in inline mode: no NUL
             if format!("{:?}", v).contains("\\0") || v.to_source().contains('\u{0}') { TV::Num(rng.range(-50, 50) as f64) } else { v }
         }
@@ -396,8 +397,8 @@ fn run_case(ctx: &Ctx, c: &Case, dir: &std::path::Path, model: &mut Model, rep: 
     let text = c.script.text();
     let mut args: Vec<String> = vec![];
     for f in &c.flags {
-        args.push("-i".into());
-        args.push(tv_jt(f).text());
+        // `--input=<json>`: a bare negative number after `-i` would be taken for a flag
+        args.push(format!("--input={}", tv_jt(f).text()));
     }
     let out_file = dir.join("out.json");
     let _ = std::fs::remove_file(&out_file);
@@ -512,7 +513,10 @@ fn run_case(ctx: &Ctx, c: &Case, dir: &std::path::Path, model: &mut Model, rep: 
                                 // which law of the merge?
                                 if d.contains("value_") { "c19.value-k" } else { "c19.merge-order" }
                             } else if n.starts_with("h_") || n.starts_with("d_") {
-                                "c19.hash-name"
+                                // both spellings agree with each other: the merged inputs are off
+                                if obj.get("h_top").map(|j| j.text()) == obj.get("d_top").map(|j| j.text())
+                                    && obj.get("h_top").map(|j| j.text()) == obj.get("h_fn").map(|j| j.text())
+                                    && n != "h_abs" && n != "d_abs" && n != "h_sh" && n != "h_eq" { "c19.merge-order" } else { "c19.hash-name" }
                             } else {
                                 "c19.output-value"
                             };
@@ -620,15 +624,13 @@ pub fn run(ctx: &Ctx, rep: &mut Report) {
         Script { lines: vec![ok_line("// nothing but a comment".into(), "(comment)")] },
     ];
     for s in fixed {
-        let mut c = fixed_case(s);
+        let c = fixed_case(s);
         // `output constants`: the value is the constants record; only the key is checked
         if c.script.text() == "output constants" {
             run_constants_probe(ctx, &c, &dir, rep);
             continue;
         }
         run_case(ctx, &c, &dir, &mut model, rep);
-        c.mode = Mode::File;
-        let _ = c;
     }
 
     // `#name` rules against the model
@@ -663,7 +665,7 @@ pub fn run(ctx: &Ctx, rep: &mut Report) {
         }
     }
 
-    let n = ctx.budget(700, 12000);
+    let n = ctx.budget(2000, 30000);
     for i in 0..n {
         let with_inputs = i % 3 != 2;
         let mode = match rng.below(8) {
